@@ -409,6 +409,61 @@ def rule_extractpos(rows, prop):
     return findings, n, samples, broken
 
 
+def rule_getfn_attrs(rows, prop):
+    """R-GETFN.attrs: get_function_t<view X>::operator() re-creates the functor of a view from the view's own attribute members
+    (`functional::X[view.a][view.b]...`). Sibling branches of one specialisation must bind the same sequence of members, and when
+    the view type publishes attributes() the bound members are exactly the members listed there: an attribute that is not bound
+    is silently replaced by the functor's default when the function is re-applied (kernels, function composition)."""
+    findings, n, samples = [], 0, []
+    attrs = {}
+    for r in rows:
+        if "fn" in r and r["fn"].endswith("::attributes") and "/view/" in r["file"] and not r.get("lambda"):
+            m = re.match(r"nmtools::view::(\w+)_t\b", r["fn"])
+            rets = [f["a"] for f in r["facts"] if f["k"] == "return"]
+            if m and rets:
+                attrs.setdefault(m.group(1), set()).update(re.findall(r"this\.(\w+)", rets[0]))
+    seen = 0
+    for r in rows:
+        if "fn" not in r or "get_function_t<" not in r["fn"] or r.get("lambda") or not r["fn"].endswith("operator()"):
+            continue
+        seen += 1
+        rets = [f for f in r["facts"] if f["k"] == "return"]
+        seqs = []
+        for rt in rets:
+            if "this.view.attributes()" in rt["a"]:
+                seqs.append(("<attributes()>",)); continue
+            seqs.append(tuple(re.findall(r"this\.view\.(\w+)\[", rt["a"])))
+        if not seqs:
+            continue
+        n += 1
+        if len(set(seqs)) > 1:
+            findings.append(finding("R-GETFN.attrs", prop, r, " | ".join(rt["a"][:90] for rt in rets),
+                "branches of one get_function_t bind different attribute members %s: the branch with fewer members re-creates the function with a defaulted attribute" % sorted(set(seqs)), rets[0].get("line")))
+            continue
+        m = re.search(r"get_function_t<decorator_t<(?:nmtools::)?view::(\w+?)_t\b", r["fn"])
+        if m and m.group(1) in attrs and seqs[0] != ("<attributes()>",) and seqs[0]:
+            want = set(a for a in attrs[m.group(1)] if a not in ("op",))
+            if set(seqs[0]) != want:
+                findings.append(finding("R-GETFN.attrs", prop, r, rets[0]["a"][:120], "binds members %s, but view::%s_t::attributes() lists %s" % (sorted(seqs[0]), m.group(1), sorted(want)), rets[0].get("line")))
+        if len(samples) < 2:
+            samples.append("R-GETFN.attrs %s binds %s" % (r["fn"][:70], seqs[0]))
+    broken = [] if seen else ["R-GETFN.attrs: no get_function_t specialisation found (anchor vanished)"]
+    return findings, n, samples, broken
+
+
+def comp_getfn(prop, tier, comp, work):
+    t0 = time.time()
+    tu, n = gen_umbrella(["nmtools/array/functional"], work, "umb_fun2.cpp")
+    rows, err, cmd = run_nmlint(tu, filters=["include/nmtools/array/functional/", "include/nmtools/array/view/"])
+    out = dict(broken=[], units=n, functions=len(rows), cmd=cmd)
+    if err:
+        out["broken"].append(err); return out
+    f, k, samples, b = rule_getfn_attrs(rows, prop)
+    out["broken"] += b
+    out.update(findings=f, instances={"R-GETFN.attrs": k}, evaluations=k, distinct_nontrivial=k - len(f), samples=samples, wall_s=round(time.time() - t0, 2))
+    return out
+
+
 def comp_fwd_functional(prop, tier, comp, work):
     t0 = time.time()
     tu, n = gen_umbrella(["nmtools/array/functional"], work, "umb_fun.cpp")
@@ -2185,4 +2240,4 @@ def comp_fwd_array(prop, tier, comp, work):
     return out
 
 
-RULES = {"R-FWD.array": comp_fwd_array, "R-FWD.functional": comp_fwd_functional, "R-UFUNC": comp_ufunc, "R-KSIB": comp_ksib, "R-SIMD": comp_simd, "R-CONSTBRANCH": comp_constbranch, "R-TRAITPROV": comp_traitprov, "R-MAYBE-DIV": comp_maybe_div, "R-OWN": comp_own, "R-EVAL": comp_eval, "R-EQSHAPE": comp_eqshape, "R-PAIR": comp_pair, "R-FOLD": comp_fold, "R-MEMCOPY": comp_memcopy, "R-AXISNORM": comp_axisnorm, "R-AXISNORM.simd": comp_axisnorm_simd, "R-UFWD.reduce": comp_ufwd_reduce, "R-PARAMUSE": comp_paramuse}
+RULES = {"R-FWD.array": comp_fwd_array, "R-FWD.functional": comp_fwd_functional, "R-UFUNC": comp_ufunc, "R-KSIB": comp_ksib, "R-SIMD": comp_simd, "R-CONSTBRANCH": comp_constbranch, "R-TRAITPROV": comp_traitprov, "R-MAYBE-DIV": comp_maybe_div, "R-OWN": comp_own, "R-EVAL": comp_eval, "R-EQSHAPE": comp_eqshape, "R-PAIR": comp_pair, "R-FOLD": comp_fold, "R-MEMCOPY": comp_memcopy, "R-AXISNORM": comp_axisnorm, "R-AXISNORM.simd": comp_axisnorm_simd, "R-UFWD.reduce": comp_ufwd_reduce, "R-PARAMUSE": comp_paramuse, "R-GETFN": comp_getfn}
